@@ -86,16 +86,30 @@ pub fn family_tag(f: &str) -> &'static str {
         "pairs" => "family:pairs",
         "strings" => "family:strings",
         "reals" => "family:reals",
+        "triples" => "family:triples",
         _ => "family:limits",
     }
 }
 pub const FAMILY_TAGS: &[&str] = &["family:single", "family:pairs", "family:strings", "family:reals", "family:limits"];
+/// the families a tier enumerates (indices into gdsgen::FAMILIES)
+pub fn families(t: Tier) -> &'static [usize] {
+    t.pick(&[0, 1, 2, 3, 4], &[0, 1, 2, 3, 4, 5])
+}
+pub fn require_families(t: Tier, stats: &Stats) -> Result<(), String> {
+    require_tags(stats, FAMILY_TAGS)?;
+    if t.is_thorough() {
+        require_tags(stats, &["family:triples"])?;
+    }
+    Ok(())
+}
 
 pub fn space_rule(t: Tier) -> String {
     format!(
-        "library values from the shared generator, five families: [single] one structure with one element = kind (7) x every subset of the optional records x every strans variant (absent | present x reflect x abs-mag x abs-angle x mag? x angle?) x 0..2 properties; [pairs] 0..2 structures x 0..{} elements, every ordered {} of the seven kinds, each element minimal or with all optional records; [strings] 14 shapes, each string site (library, structure, reference name, text, property value) walks every string over {{a, B, e-acute, euro, space, NUL}} with 0..{} symbols plus 511- and 512-byte strings; [reals] sref/aref/text with full strans, each real site (UNITS x2, MAG, ANGLE) walks a 40-value slice of the C15 alphabet (+-1..3 ulp around 1, 1/16, 16, 256, 4096; 90, 1e-3, 1e-9, smallest/largest normalised, +-0); [limits] coordinate lists of 4094..16384 points and strings of 32763..70000 bytes around the 0x8000 boundary and the 65535-byte record limit. Value deviations from the witness values (every field distinct from its siblings): integers {{witness, 0, -1, MIN, MAX}}, dates {{witness, 0, -1, MIN, MAX, calendar, impossible}}, coordinate lists of 0, 1, 2, 5, 50 points and extreme coordinates, short strings incl. empty / odd / even / non-ASCII / NUL-terminated; all choice sequences with at most {} deviations. A state is one library value (hashed); non-trivial = has at least one element.",
-        t.pick(2, 3),
-        t.pick("pair", "pair and triple"),
+        "library values from the shared generator, {} families: [single] one structure with one element = kind (7) x every subset of the optional records x every strans variant (absent | present x reflect x abs-mag x abs-angle x mag? x angle?) x 0..2 properties, value deviations <= {}; [pairs] 0..2 structures, one structure with 0..2 elements (every ordered pair of the seven kinds) or two structures with 0..1 elements each, every element minimal or with all optional records, value deviations <= {}; {}[strings] 14 shapes (kind x minimal/full), one string site at a time (library, structure, reference name, text, property value) walks every string over {{a, B, e-acute, euro, space, NUL}} with 0..{} symbols plus 511- and 512-byte strings; [reals] sref/aref/text with full strans, the real sites (UNITS x2, MAG, ANGLE; <= {} at a time) walk a 40-value slice of the C15 alphabet (+-1..3 ulp around 1, 1/16, 16, 256, 4096; 90, 1e-3, 1e-9, smallest/largest normalised, +-0); [limits] coordinate lists of 4094..16384 points and strings of 32763..70000 bytes around the 0x8000 boundary and the 65535-byte record limit. Value deviations from the witness values (every field distinct from its siblings): integers {{witness, 0, -1, MIN, MAX}}, flag bytes {{witness, 0, 0xFFFF, swapped}}, dates {{witness, 0, -1, MIN, MAX, calendar, impossible}}, coordinate lists of 0, 1, 2, 5, 50 points and extreme coordinates, short strings {{witness, empty, a, ab, abc, e-acute, euro, a+NUL, NUL, 'x y'}}, short reals {{witness, 0, 1, 16-1ulp, -witness, 1/16-2ulp}}; all choice sequences within the stated deviation bounds. A state is one library value (hashed); non-trivial = has at least one element.",
+        t.pick("five", "six"),
+        t.pick(1, 2),
+        t.pick(1, 2),
+        t.pick("", "[triples] one structure with three elements, every ordered triple of kinds, each minimal or full, value deviations <= 1; "),
         t.pick(3, 5),
         t.pick(1, 2)
     )
@@ -117,7 +131,7 @@ impl CaseDriver for C01 {
                 "reals are taken from inside the GDSII real range only (16^-65 <= |x| < 16^63, and zero)".into(),
             ],
             excluded: vec![
-                "libraries with more than 3 elements / 2 structures, strings outside the stated alphabet, values reached only with more deviations than the bound".into(),
+                "libraries with more than 3 elements or 2 structures, strings outside the stated alphabet, values reached only with more deviations than the bound".into(),
                 "GdsLibrary::save/open (same code path through a file)".into(),
             ],
             technique: "deviation-bounded exhaustive enumeration of library values; real writer then real reader; derived equality".into(),
@@ -127,7 +141,7 @@ impl CaseDriver for C01 {
         t.pick(1, 2)
     }
     fn gen(&self, t: Tier, c: &mut Chooser) -> GenCase {
-        gen_lib(t, c, &[0, 1, 2, 3, 4])
+        gen_lib(t, c, families(t))
     }
     fn check(&self, case: &GenCase, key: &str, cx: &mut Cx) {
         if !ref_self_check(cx) {
@@ -183,10 +197,10 @@ impl CaseDriver for C01 {
     fn render(&self, case: &GenCase) -> Value {
         json!({"family": case.family, "library": render_lib(&case.lib)})
     }
-    fn guards(&self, _t: Tier, stats: &Stats, _d: u64) -> Result<(), String> {
+    fn guards(&self, t: Tier, stats: &Stats, _d: u64) -> Result<(), String> {
         require_tags(stats, REQUIRED_TAGS)?;
         require_tags(stats, OK_KIND_TAGS)?;
-        require_tags(stats, FAMILY_TAGS)?;
+        require_families(t, stats)?;
         require_outcomes(stats, &["ok", "write-err:record-too-long"])?;
         let ok = stats.outcomes.get("ok").copied().unwrap_or(0);
         if ok * 2 < stats.executions {
